@@ -465,6 +465,28 @@ archive_write_gnutar_header(struct archive_write *a,
 			ret2 = ARCHIVE_WARN;
 		}
 	}
+	/*
+	 * Refuse an unsupported file type before anything is written: a
+	 * 'K' or 'L' long-name header without its entry would be applied by
+	 * readers to the entry that follows.
+	 */
+	if (archive_entry_hardlink_is_set(entry)) {
+		tartype = '1';
+	} else
+		switch (archive_entry_filetype(entry)) {
+		case AE_IFREG: tartype = '0' ; break;
+		case AE_IFLNK: tartype = '2' ; break;
+		case AE_IFCHR: tartype = '3' ; break;
+		case AE_IFBLK: tartype = '4' ; break;
+		case AE_IFDIR: tartype = '5' ; break;
+		case AE_IFIFO: tartype = '6' ; break;
+		default: /* AE_IFSOCK and unknown */
+			__archive_write_entry_filetype_unsupported(
+                            &a->archive, entry, "gnutar");
+			ret = ARCHIVE_FAILED;
+			goto exit_write_header;
+		}
+
 	if (gnutar->linkname_length > GNUTAR_linkname_size) {
 		size_t length = gnutar->linkname_length + 1;
 		struct archive_entry *temp = archive_entry_new2(&a->archive);
@@ -522,23 +544,6 @@ archive_write_gnutar_header(struct archive_write *a,
 		if (ret < ARCHIVE_WARN)
 			goto exit_write_header;
 	}
-
-	if (archive_entry_hardlink_is_set(entry)) {
-		tartype = '1';
-	} else
-		switch (archive_entry_filetype(entry)) {
-		case AE_IFREG: tartype = '0' ; break;
-		case AE_IFLNK: tartype = '2' ; break;
-		case AE_IFCHR: tartype = '3' ; break;
-		case AE_IFBLK: tartype = '4' ; break;
-		case AE_IFDIR: tartype = '5' ; break;
-		case AE_IFIFO: tartype = '6' ; break;
-		default: /* AE_IFSOCK and unknown */
-			__archive_write_entry_filetype_unsupported(
-                            &a->archive, entry, "gnutar");
-			ret = ARCHIVE_FAILED;
-			goto exit_write_header;
-		}
 
 	ret = archive_format_gnutar_header(a, buff, entry, tartype);
 	if (ret < ARCHIVE_WARN)
